@@ -39,8 +39,6 @@ def int64Max : Int := 9223372036854775807
 inductive JParam where
   | num (lit : String) (tok : String)  -- a JSON number as written (`json.Number`); `tok` names the
                                 -- double nearest to it (opaque: floats are not computed with)
-  | intLit (z : Int)            -- a number written as an integer literal (any magnitude)
-  | fltLit (f : Flt)            -- any other number (fraction and/or exponent)
   | bool (b : Bool)
   | null
   | str (s : String)
@@ -145,9 +143,6 @@ def floatOverflows (s : String) : Bool :=
                       else decide (m ≥ floatOverflowBound * 10 ^ (-e).toNat)
   | none => false
 
-/-- what `Flt` an out-of-range integer literal becomes (`json.Number.Float64`) -/
-def bigToFlt (z : Int) : Flt := .fin ("int:" ++ toString z)
-
 /-- `makeParameter` -/
 def makeParameter : JParam → Option Param
   | .num lit tok =>
@@ -155,8 +150,6 @@ def makeParameter : JParam → Option Param
     match parseInt10 lit with
     | some z => some (.i z)
     | none => if floatOverflows lit then none else some (.d (.fin tok))
-  | .intLit z => if int64Min ≤ z ∧ z ≤ int64Max then some (.i z) else some (.d (bigToFlt z))
-  | .fltLit f => some (.d f)
   | .bool b => some (.b b)
   | .null => some .null
   | .str s =>
@@ -177,19 +170,22 @@ inductive Arg where
   | named (members : List (String × JParam))
 deriving Repr
 
-/-- the parameter loop of `ParseRequest`: `(name, value)` per parameter, `""` for positional ones;
-`none` = the request is rejected. (Go iterates a map: the order of the members of one object is not
-defined; SQLite binds named parameters by name.) -/
-def parseArgs : List Arg → Option (List (String × Param))
-  | [] => some []
-  | .pos j :: rest => do
-    let p ← makeParameter j
-    let ps ← parseArgs rest
-    pure (("", p) :: ps)
-  | .named ms :: rest => do
-    let here ← ms.mapM fun (kv : String × JParam) => (makeParameter kv.2).map fun p => (kv.1, p)
-    let ps ← parseArgs rest
-    pure (here ++ ps)
+/-- what `json.Decoder` leaves of the members of an object decoded into a Go map: for a repeated
+key the LAST member wins, the earlier ones are gone before `makeParameter` sees them -/
+def dedupLast : List (String × JParam) → List (String × JParam)
+  | [] => []
+  | kv :: rest => if rest.any (fun o => o.1 == kv.1) then dedupLast rest else kv :: dedupLast rest
+
+/-- the parameters one item contributes; `none` = the request is rejected. (Go iterates a map: the
+order of the parameters of ONE object is not defined; SQLite binds named parameters by name.) -/
+def parseArg : Arg → Option (List (String × Param))
+  | .pos j => (makeParameter j).map fun p => [("", p)]
+  | .named ms => (dedupLast ms).mapM fun (kv : String × JParam) => (makeParameter kv.2).map fun p => (kv.1, p)
+
+/-- the parameter loop of `ParseRequest`: `(name, value)` per parameter, `""` for positional ones, in
+item order; `none` = the request is rejected. -/
+def parseArgs (args : List Arg) : Option (List (String × Param)) :=
+  (args.mapM parseArg).map List.flatten
 
 /-! ### SQLite side -/
 
@@ -319,7 +315,11 @@ def assocGet (cols : List String) (vals : List JOut) (c : String) : Option JOut 
 `bind <param>` → `<sqlval>`
 `read <plain|datetime|boolean> <0|1 text-typed column> <0|1 blob_array> <sqlval>` → `<jout>` | `error`
 `readcol <plain|datetime|boolean> <e|t|o declared type> <0|1 blob_array> <sqlval,sqlval,…>` → `<jout>,<jout>,…`
-tokens: jparam `num:<hex literal>:<hex float token>` `i:<int>` `f:<hex tok>` `finf:<0|1>` `b:<0|1>` `n` `s:<hex>` `a:<e,e,…>|a:-` (element `x` = not an integer) `o`;
+`args <item> <item> …` → `<hex name>=<param> …` | `-` (no parameter) | `error`; item `p=<jparam>` (positional) or
+  `n=<hex name>=<jparam>;<hex name>=<jparam>;…` (one JSON object, `n=` the empty one). The parameters of one object
+  are printed sorted by name (Go's map order is undefined); the order of items is kept.
+`assoc <hex col>,<hex col>,… <jout>,<jout>,… <hex col>` → `<jout>` | `none`: the associative row's value for a column
+tokens: jparam `num:<hex literal>:<hex float token>` `b:<0|1>` `n` `s:<hex>` `a:<e,e,…>|a:-` (element `x` = not an integer) `o`;
 param `I:<int>` `D:<hex tok>` `Dinf:<0|1>` `B:<0|1>` `Y:<hex>` `S:<hex>` `N`;
 sqlval `integer:<int>` `real:<hex tok>` `realinf:<0|1>` `text:<hex>` `blob:<hex>` `null`;
 jout `num:<int>` `fnum:<hex tok>` `bool:<0|1>` `str:<hex>` `b64:<hex>` `arr:<hex>` `lossy:<hex>` `null`. -/
@@ -352,8 +352,6 @@ def parseJParam (t : String) : Option JParam :=
     match body.splitOn ":" with
     | [l, t] => do let l ← tokString l; let t ← tokString t; pure (.num l t)
     | _ => none
-  else if tag == "i" then (parseInt body).map .intLit
-  else if tag == "f" || tag == "finf" then (parseFlt tag body "f" "finf").map .fltLit
   else if tag == "b" then (bit body).map .bool
   else if tag == "n" then some .null
   else if tag == "s" then (tokString body).map .str
@@ -412,6 +410,34 @@ def joutStr : JOut → String
   | .lossyStr bs => if bs.isEmpty then "b64:x" else "lossy:" ++ hexOfBytes bs   -- "" either way
   | .null => "null"
 
+def parseJOut (t : String) : Option JOut :=
+  let (tag, body) := splitTag t
+  if tag == "num" then (parseInt body).map .num
+  else if tag == "fnum" then (tokString body).map .fnum
+  else if tag == "bool" then (bit body).map .bool
+  else if tag == "str" then (tokString body).map .str
+  else if tag == "b64" then (tokBytes body).map .b64
+  else if tag == "arr" then (tokBytes body).map .arr
+  else if tag == "lossy" then (tokBytes body).map .lossyStr
+  else if tag == "null" then some .null
+  else none
+
+def parseMember (m : String) : Option (String × JParam) :=
+  match m.splitOn "=" with
+  | [k, t] => do let name ← tokString k; let j ← parseJParam t; pure (name, j)
+  | _ => none
+
+def parseArgItem (item : String) : Option Arg :=
+  match item.splitOn "=" with
+  | ["p", t] => (parseJParam t).map .pos
+  | ["n", ""] => some (.named [])
+  | "n" :: rest => (("=".intercalate rest).splitOn ";").mapM parseMember |>.map .named
+  | _ => none
+
+/-- the parameters of one item, those of an object sorted by name -/
+def groupStr (g : List (String × Param)) : List String :=
+  (g.mergeSort fun a b => !(decide (b.1 < a.1))).map fun kp => hexOfString kp.1 ++ "=" ++ paramStr kp.2
+
 def parseDecl (t : String) : Option Decl :=
   if t == "plain" then some .plain else if t == "datetime" then some .datetime
   else if t == "boolean" then some .boolean else none
@@ -432,6 +458,21 @@ def step (d : DState) (line : String) : DState × String :=
     | some dt, some ct, some ba, some vals =>
       (d, ",".intercalate ((readColumn dt ct ba vals).map fun o => match o with | some j => joutStr j | none => "error"))
     | _, _, _, _ => (d, "bad-op")
+  | ["assoc", cs, vs, c] =>
+    match (cs.splitOn ",").mapM tokString, (vs.splitOn ",").mapM parseJOut, tokString c with
+    | some cols, some vals, some c =>
+      (d, match assocGet cols vals c with | some j => joutStr j | none => "none")
+    | _, _, _ => (d, "bad-op")
+  | "args" :: items =>
+    match items.mapM parseArgItem with
+    | some args =>
+      -- accepted / rejected is `parseArgs`; the groups are printed one by one so that each can be sorted
+      (d, match parseArgs args, args.mapM parseArg with
+          | some _, some groups =>
+            let out := groups.flatMap groupStr
+            if out.isEmpty then "-" else " ".intercalate out
+          | _, _ => "error")
+    | none => (d, "bad-op")
   | ["read", dt, tt, ba, t] =>
     match parseDecl dt, bit tt, bit ba, parseSql t with
     | some dt, some tt, some ba, some v =>
